@@ -514,11 +514,15 @@ theorem scalar_list (n : Nat) (ss : Schemas) (k : String) (val : Val) (cs : List
     · right
       exact ⟨by simp [List.all_cons, h1], by simp [mapRes, h2, DRes.bind]⟩
 
-theorem goDecode_array_arr (n : Nat) (ss : Schemas) (e : Ty) (m : Meta) (xs : List Json) :
-    goDecode (n + 1) ss (.array e m) (.arr xs) = (mapRes (goDecode n ss e) xs).map .slice := rfl
+theorem goDecode_array_arr (n : Nat) (ss : Schemas) (e : Ty) (m : Meta) (xs : List Json)
+    (hb : isByteElem e = false) :
+    goDecode (n + 1) ss (.array e m) (.arr xs) = (mapRes (goDecode n ss e) xs).map .slice := by
+  simp only [goDecode, hb, Bool.false_eq_true, if_false]
 
-theorem den_array_arr (n : Nat) (ss : Schemas) (e : Ty) (m : Meta) (xs : List Json) :
-    den (n + 1) ss (.array e m) (.arr xs) = xs.all (den n ss e) := rfl
+theorem den_array_arr (n : Nat) (ss : Schemas) (e : Ty) (m : Meta) (xs : List Json)
+    (hb : isByteElem e = false) :
+    den (n + 1) ss (.array e m) (.arr xs) = xs.all (den n ss e) := by
+  simp only [den, hb, Bool.not_false, Bool.true_and]
 
 theorem simple_branch (n : Nat) (ss : Schemas) (f : Field) (hs : simpleBranch f = true)
     (j : Json) (hj : noNulls j = true) :
@@ -540,21 +544,27 @@ theorem simple_branch (n : Nat) (ss : Schemas) (f : Field) (hs : simpleBranch f 
     · exact Or.inl ⟨h1, v, hv, he, hn, fun _ => trivial⟩
     · exact Or.inr h
   · rename_i k val cs em am heq
-    simp only [Bool.and_eq_true, Bool.not_eq_true'] at hs
+    simp only [Bool.and_eq_true, Bool.not_eq_true', bne_iff_ne, ne_eq] at hs
+    obtain ⟨⟨hk, hdt⟩, hu8⟩ := hs
+    have hbyte : isByteElem (Ty.scalar k val cs em) = false := by
+      unfold isByteElem
+      split
+      · rename_i heq2; injection heq2 with e1; exact absurd e1 hu8
+      · rfl
     rw [heq]
     simp only [Ty.setMeta, Ty.getMeta]
     have hnn := noNulls_isNull hj
     cases j with
     | arr xs =>
       simp only [noNulls] at hj
-      rw [goDecode_array_arr, den_array_arr]
-      rcases scalar_list n ss k val cs em hs.1 hs.2 xs hj with ⟨h1, vs, hvs, he⟩ | ⟨h1, h2⟩
+      rw [goDecode_array_arr _ _ _ _ _ hbyte, den_array_arr _ _ _ _ _ hbyte]
+      rcases scalar_list n ss k val cs em hk hdt xs hj with ⟨h1, vs, hvs, he⟩ | ⟨h1, h2⟩
       · left
         exact ⟨h1, .slice vs, by rw [hvs]; rfl, by simp [goEncode, he], rfl, fun _ => trivial⟩
       · right
         exact ⟨h1, by rw [h2]; rfl⟩
     | null => simp [Json.isNull] at hnn
-    | bool _ | num _ | str _ | obj _ => right; simp [den, goDecode]
+    | bool _ | num _ | str _ | obj _ => right; simp [den, goDecode, hbyte]
   · simp at hs
 
 theorem encUnion_skip (before rest : List (String × GoVal)) (hb : ∀ e ∈ before, e.2.isNil = true) :
@@ -676,8 +686,9 @@ theorem roundtrip_core (ss : Schemas) : ∀ n, IH n ss := by
               exact wrapPtr_good m.nullable rfl hcoll rfl hnn hv (by rw [henc]; exact hrefl)
                 (by rw [henc]; exact hrefl) (fun _ _ => trivial)
     | array e m =>
-      simp only [den] at h
-      simp only [goDecode]
+      simp only [den, Bool.and_eq_true, Bool.not_eq_true'] at h
+      obtain ⟨hbyte, h⟩ := h
+      simp only [goDecode, hbyte, Bool.false_eq_true, if_false]
       cases j with
       | null =>
         exact ⟨.nil, rfl, ⟨by simp [goEncode, Json.sub], by simp [goEncode, Json.sub], fun _ => Or.inl rfl⟩⟩
